@@ -71,6 +71,18 @@ pub struct Case {
     pub scheme: String,
     pub gpa: PrinterReply,
     pub job: JobReply,
+    /// the -f path is a symbolic link to the document
+    #[serde(default)]
+    pub via_symlink: bool,
+    /// connection closed by the printer at this offset inside the IPP header+attributes of the reply (a failed exchange)
+    #[serde(default)]
+    pub gpa_cut: Option<u32>,
+    #[serde(default)]
+    pub job_cut: Option<u32>,
+    /// shape of the job-attributes part of the Print-Job reply: 0 = three attributes, 1 = empty group, 2 = no group,
+    /// 3 = two groups
+    #[serde(default)]
+    pub job_reply_shape: u8,
 }
 
 #[derive(Clone, Copy)]
@@ -139,10 +151,20 @@ fn gpa_ipp(rng_tok: u32, r: &PrinterReply) -> Vec<u8> {
     refcodec::encode(&m).bytes
 }
 
-fn job_ipp(r: &JobReply) -> Vec<u8> {
+fn job_ipp(r: &JobReply, shape: u8) -> Vec<u8> {
     let op = vec![text_attr("attributes-charset", 0x47, b"utf-8"), text_attr("attributes-natural-language", 0x48, b"en")];
     let ja = vec![int_attr("job-id", 0x21, 42), text_attr("job-uri", 0x45, b"ipp://127.0.0.1/jobs/42"), int_attr("job-state", 0x23, 3)];
-    let m = WMsg { version: 0x0101, op: r.ipp_status, reqid: 1, groups: vec![WGroup { tag: 0x01, attrs: op }, WGroup { tag: 0x02, attrs: ja }] };
+    let mut groups = vec![WGroup { tag: 0x01, attrs: op }];
+    match shape {
+        1 => groups.push(WGroup { tag: 0x02, attrs: vec![] }),
+        2 => {}
+        3 => {
+            groups.push(WGroup { tag: 0x02, attrs: ja.clone() });
+            groups.push(WGroup { tag: 0x02, attrs: vec![text_attr("job-state-reasons", 0x44, b"none")] });
+        }
+        _ => groups.push(WGroup { tag: 0x02, attrs: ja }),
+    }
+    let m = WMsg { version: 0x0101, op: r.ipp_status, reqid: 1, groups };
     refcodec::encode(&m).bytes
 }
 
@@ -152,7 +174,7 @@ fn model_gate(c: &Case) -> Option<bool> {
     if c.no_check {
         return Some(true);
     }
-    if c.gpa.http_status >= 400 {
+    if c.gpa.http_status >= 400 || c.gpa_cut.is_some() {
         return Some(false);
     }
     if !successful(c.gpa.ipp_status) {
@@ -195,7 +217,14 @@ impl Prop for C18 {
         let nopt = rng.usize(0, 6);
         let mut options: Vec<(String, String)> = Vec::new();
         for _ in 0..nopt {
-            let key = if !options.is_empty() && rng.chance(1, 4) { rng.pick(&options).clone().0 } else { format!("x{}", gen_ascii(rng, 8)) };
+            let key = if !options.is_empty() && rng.chance(1, 4) {
+                rng.pick(&options).clone().0
+            } else if rng.chance(1, 6) {
+                // names that mean something elsewhere in the message are still just job attributes here
+                rng.pick(&["job-id", "job-uri", "printer-uri", "attributes-charset", "attributes-natural-language", "job-name", "requesting-user-name", "copies", "sides", "media"]).to_string()
+            } else {
+                format!("x{}", gen_ascii(rng, 8))
+            };
             let value: String = match rng.below(9) {
                 0 => "true".into(),
                 1 => "false".into(),
@@ -278,6 +307,10 @@ impl Prop for C18 {
             scheme: rng.pick(&["http", "ipp"]).to_string(),
             gpa,
             job,
+            via_symlink: rng.chance(1, 8),
+            gpa_cut: if rng.chance(1, 12) { Some(rng.below(200) as u32) } else { None },
+            job_cut: if rng.chance(1, 12) { Some(rng.below(200) as u32) } else { None },
+            job_reply_shape: *rng.pick(&[0u8, 0, 0, 1, 2, 3]),
         }
     }
 
@@ -290,7 +323,17 @@ impl Prop for C18 {
         }
         let mut scripts: BTreeMap<u32, Script> = BTreeMap::new();
         scripts.insert(0x000b, Script { status: case.gpa.http_status, framing: case.gpa.framing.clone(), ipp: gpa_ipp(7, &case.gpa), trailing: vec![], segments: case.gpa.segments.clone(), fault: None, reset_request_after: None, drip_ms: 0 });
-        scripts.insert(0x0002, Script { status: case.job.http_status, framing: case.job.framing.clone(), ipp: job_ipp(&case.job), trailing: vec![], segments: case.job.segments.clone(), fault: None, reset_request_after: None, drip_ms: 0 });
+        scripts.insert(0x0002, Script { status: case.job.http_status, framing: case.job.framing.clone(), ipp: job_ipp(&case.job, case.job_reply_shape), trailing: vec![], segments: case.job.segments.clone(), fault: None, reset_request_after: None, drip_ms: 0 });
+        if let Some(k) = case.gpa_cut {
+            let sc = scripts.get_mut(&0x000b).unwrap();
+            let k = k.min(sc.ipp.len() as u32 - 1);
+            sc.fault = Some(crate::printer::RespFault { at: crate::printer::FaultAt::Body(k), kind: crate::printer::RespFaultKind::Cut });
+        }
+        if let Some(k) = case.job_cut {
+            let sc = scripts.get_mut(&0x0002).unwrap();
+            let k = k.min(sc.ipp.len() as u32 - 1);
+            sc.fault = Some(crate::printer::RespFault { at: crate::printer::FaultAt::Body(k), kind: crate::printer::RespFaultKind::Cut });
+        }
         let printer = match TcpPrinter::start_keyed(scripts, true) {
             Ok(p) => p,
             Err(e) => {
@@ -312,10 +355,19 @@ impl Prop for C18 {
             cmd.arg("-n");
         }
         let mut file_path = None;
+        let mut link_path: Option<PathBuf> = None;
         if !case.via_stdin {
             let p = dir.join(format!("doc-{}.bin", FILE_SEQ.fetch_add(1, Ordering::SeqCst)));
             std::fs::write(&p, &case.document).expect("write document");
-            cmd.arg("-f").arg(&p);
+            if case.via_symlink {
+                let l = dir.join(format!("link-{}.bin", FILE_SEQ.fetch_add(1, Ordering::SeqCst)));
+                let _ = std::fs::remove_file(&l);
+                std::os::unix::fs::symlink(&p, &l).expect("symlink");
+                cmd.arg("-f").arg(&l);
+                link_path = Some(l);
+            } else {
+                cmd.arg("-f").arg(&p);
+            }
             file_path = Some(p);
         }
         if let Some(j) = &case.job_name {
@@ -368,6 +420,16 @@ impl Prop for C18 {
         if let Some(p) = file_path {
             let _ = std::fs::remove_file(p);
         }
+        if let Some(p) = link_path {
+            let _ = std::fs::remove_file(p);
+        }
+        if case.via_symlink && !case.via_stdin {
+            rep.count("document_via_symlink", 1);
+        }
+        if case.gpa_cut.is_some() || case.job_cut.is_some() {
+            rep.count("reply_cut_inside_attributes", 1);
+        }
+        rep.count(&format!("job_reply_shape_{}", case.job_reply_shape), 1);
         rep.count(if case.no_check { "with_no_check_flag" } else { "with_state_check" }, 1);
         rep.count(if case.via_stdin { "document_via_stdin" } else { "document_via_file" }, 1);
         rep.count("document_bytes", case.document.len() as u64);
@@ -513,7 +575,7 @@ impl Prop for C18 {
             rep.violate("job-attributes-differ", format!("job attributes on the wire {got:?}, expected {want_cmp:?}"));
             return rep;
         }
-        let want_exit = case.job.http_status == 200 && successful(case.job.ipp_status);
+        let want_exit = case.job.http_status == 200 && successful(case.job.ipp_status) && case.job_cut.is_none();
         if exit_ok != want_exit {
             rep.violate("exit-status-wrong", format!("Print-Job reply http={} ipp={:#06x}: exit status {} but expected {}", case.job.http_status, case.job.ipp_status, if exit_ok { "0" } else { "non-zero" }, if want_exit { "0" } else { "non-zero" }));
         }
@@ -543,6 +605,12 @@ impl Prop for C18 {
         if c.via_stdin {
             out.push(Case { via_stdin: false, ..c.clone() });
         }
+        if c.via_symlink {
+            out.push(Case { via_symlink: false, ..c.clone() });
+        }
+        if c.job_reply_shape != 0 {
+            out.push(Case { job_reply_shape: 0, ..c.clone() });
+        }
         if !c.gpa.segments.is_empty() || !c.job.segments.is_empty() {
             let mut d = c.clone();
             d.gpa.segments = vec![];
@@ -564,7 +632,7 @@ impl Prop for C18 {
     }
 
     fn rule(&self) -> String {
-        "Each run starts the real ipputil binary (built from /repo, hooks off) as a child process with a seeded command line — document from a file or stdin (0 B to 2 MiB of arbitrary bytes), optional -j / -u, 0-6 -o key=value options with values of every textual class (true/false, decimal i32 incl. range edges and leading zeros, out-of-range and non-decimal look-alikes, text containing '='; duplicate keys, last wins), -n on/off, 0-3 -H headers — against the scripted printer on loopback: reply to Get-Printer-Attributes (HTTP status, IPP status, printer-state absent/idle/processing/stopped/unregistered/wrong syntax, printer-state-reasons absent / single keyword / set with a blocking keyword at any position / informational only) and reply to Print-Job (HTTP status, IPP status), each under a seeded framing and segmentation. Oracle = reference model of the command: expected request history (query first unless -n; no Print-Job when the query fails, the status is unsuccessful, the printer is stopped or a blocking reason is present; otherwise exactly one Print-Job to the canonical printer-uri with job-name / requesting-user-name as name values, job attributes typed by their text compared through the reference decoder, document bytes identical) and exit status (0 iff every exchange was HTTP 200 with a successful IPP status). Cells the statement leaves open (unregistered state value, wrong state syntax) accept either behaviour. distinct_nontrivial = distinct (command line, printer script, history, exit) hashes."
+        "Each run starts the real ipputil binary (built from /repo, hooks off) as a child process with a seeded command line — document from a file or stdin (0 B to 2 MiB of arbitrary bytes), optional -j / -u, 0-6 -o key=value options with values of every textual class (true/false, decimal i32 incl. range edges and leading zeros, out-of-range and non-decimal look-alikes, text containing '='; duplicate keys, last wins), -n on/off, 0-3 -H headers — against the scripted printer on loopback: reply to Get-Printer-Attributes (HTTP status, IPP status, printer-state absent/idle/processing/stopped/unregistered/wrong syntax, printer-state-reasons absent / single keyword / set with a blocking keyword at any position / informational only) and reply to Print-Job (HTTP status, IPP status; job-attributes part with three attributes / an empty group / no group / two groups), each under a seeded framing and segmentation, and in 1 of 12 runs each cut by the printer inside its attributes (a failed exchange); 1 of 8 file runs passes the document through a symbolic link; option keys are mostly private names, sometimes names that mean something elsewhere in a message (job-id, printer-uri, attributes-charset, copies ...). Oracle = reference model of the command: expected request history (query first unless -n; no Print-Job when the query fails, the status is unsuccessful, the printer is stopped or a blocking reason is present; otherwise exactly one Print-Job to the canonical printer-uri with job-name / requesting-user-name as name values, job attributes typed by their text compared through the reference decoder, document bytes identical) and exit status (0 iff every exchange was HTTP 200 with a successful IPP status). Cells the statement leaves open (unregistered state value, wrong state syntax) accept either behaviour. distinct_nontrivial = distinct (command line, printer script, history, exit) hashes."
             .into()
     }
     fn assumptions(&self) -> Vec<String> {
